@@ -38,7 +38,7 @@ def gen_cases(ctx):
     cases = [
         {"op": "aggregate", "by": ["a"], "frame": {"n": 3, "cols": [{"name": "a", "kind": "float", "vals": ["-inf", "nan", 1.0]}, {"name": "v", "kind": "float", "vals": [1.0, 2.0, 3.0]}]}},
         {"op": "count", "by": ["a"], "frame": {"n": 5, "cols": [{"name": "a", "kind": "datetime", "vals": [None, 1, None, 1, 0]}, {"name": "v", "kind": "float", "vals": [1.0, 2.0, 3.0, 1.0, 1.0]}]}},
-        # fixed c7d6d59: "a\0" and "a" were one sort key but two unique keys: groups mixed rows of both
+        # known finding (trailing-nul): "a\0" and "a" are one sort key but two unique keys: groups mix rows of both
         {"op": "split", "by": ["a"], "frame": {"n": 4, "cols": [{"name": "a", "kind": "str", "vals": ["a\x00", "a", "a\x00", "b"]}, {"name": "v", "kind": "float", "vals": [1.0, 2.0, 3.0, 1.0]}]}},
         {"op": "aggregate", "by": ["a"], "frame": {"n": 4, "cols": [{"name": "a", "kind": "str", "vals": ["a\x00", "a", "a\x00", "b"]}, {"name": "v", "kind": "float", "vals": [1.0, 2.0, 3.0, 1.0]}]}},
         {"op": "count", "by": ["a"], "frame": {"n": 4, "cols": [{"name": "a", "kind": "str", "vals": ["a\x00", "a", "a\x00", "b"]}, {"name": "v", "kind": "float", "vals": [1.0, 2.0, 3.0, 1.0]}]}},
